@@ -15,3 +15,5 @@ import Csproto.Bridge.Templates
 #print axioms Csproto.C07.marshal_again_same
 #print axioms Csproto.Bridge.Templates.marshal_result_is_fresh
 #print axioms Csproto.Bridge.Templates.shim_leaves_unknown_store_alone
+#print axioms Csproto.C07.reserved_numbers_are_undefined_numbers
+#print axioms Csproto.Bridge.Templates.generator_ignores_reserved
